@@ -103,9 +103,10 @@ def lake_build(targets):
 def audit_axioms(module, theorems):
     """#print axioms for every listed theorem; returns (ok, {thm: [axioms]}, raw)"""
     os.makedirs(os.path.join(CACHE, 'audit'), exist_ok=True)
-    f = os.path.join(CACHE, 'audit', module.replace('.', '_') + '_%d.lean' % os.getpid())
+    modules = [module] if isinstance(module, str) else list(module)
+    f = os.path.join(CACHE, 'audit', modules[0].replace('.', '_') + '_%d.lean' % os.getpid())
     with open(f, 'w') as h:
-        h.write('import %s\n' % module)
+        for mm in modules: h.write('import %s\n' % mm)
         for t in theorems:
             h.write('#print axioms %s\n' % t)
     rc, out = sh(['lake', 'env', 'lean', f], cwd=LEAN, timeout=1800)
@@ -373,14 +374,16 @@ class Check:
 
     # -- the tie
     def prepare_model(self, module, theorems):
-        """extract tables, build property module + driver, audit axioms.  Returns True when the
+        """extract tables, build property module(s) + driver, audit axioms.  Returns True when the
         proof side is intact; otherwise records what is broken (the caller then searches)."""
+        modules = [module] if isinstance(module, str) else list(module)
+        module = ' '.join(modules)
         with Lock('lake'):
             rc, out, facts = run_extract()
             self.facts = facts
             if rc != 0:
                 self.broken.append('extractor: ' + out.strip()[-300:])
-            rc, out = lake_build([module, 'cctz_model'])
+            rc, out = lake_build(modules + ['cctz_model'])
             build_ok = rc == 0
             if not build_ok:
                 errs = re.findall(r'error: ([^\n]*)', out)
@@ -394,7 +397,7 @@ class Check:
             discharged = 0
             axioms = {}
             if build_ok:
-                ok, res, raw = audit_axioms(module, theorems)
+                ok, res, raw = audit_axioms(modules, theorems)
                 axioms = res
                 for t, ax in res.items():
                     if ax is not None and set(ax) <= ALLOWED_AXIOMS: discharged += 1
@@ -408,7 +411,10 @@ class Check:
             self.cov['theorems'] = theorems
             self.cov['checker_cmd'] = 'cd lean && lake build %s && lake env lean <#print axioms of each theorem>' % module
             if self.tier == 'thorough' and build_ok:
-                rc, out = sh(['lake', 'env', 'leanchecker', module], cwd=LEAN, timeout=3600)
+                rc, out = 0, ''
+                for mm in modules:
+                    rc1, out1 = sh(['lake', 'env', 'leanchecker', mm], cwd=LEAN, timeout=3600)
+                    rc = rc or rc1; out += out1
                 self.cov['leanchecker'] = 'ok' if rc == 0 else 'FAILED: ' + out[-300:]
                 if rc != 0: self.broken.append('leanchecker ' + module)
                 self.cov['checker_cmd'] += ' && lake env leanchecker ' + module
